@@ -135,6 +135,10 @@ pub struct Case {
 }
 
 fn mk<Ctx: ScriptContext>(w: &World, seed: u64, ci: CtxInfo, depth: u32, sane: bool) -> Option<Miniscript<Key, Ctx>> {
+    if let Some(t) = TMPL.with(|t| t.get()) {
+        // taproot trees take consecutive templates for their leaves
+        return mk_tmpl::<Ctx>(w, t + (seed % 3) as usize * usize::from(ci.tap), ci.tap, sane);
+    }
     let mut g = Gen::new(w, seed, ci);
     g.dup_keys = !sane && seed % 5 == 0;
     for _ in 0..20 {
@@ -145,6 +149,69 @@ fn mk<Ctx: ScriptContext>(w: &World, seed: u64, ci: CtxInfo, depth: u32, sane: b
         return Some(m);
     }
     None
+}
+
+/// Directed shapes (C03 / C02): sane scripts whose spending paths differ in what a third party
+/// could supply — a signed branch next to a signature-free one (hashes, locks), thresholds mixing
+/// keys with hashes and locks.  `@i` is key i, `#s/#h/#r/#k j` the sha256 / hash256 / ripemd160 /
+/// hash160 image of preimage j.
+pub const TEMPLATES: &[&str] = &[
+    "and_v(v:pk(@1),or_i(sha256(#s0),pk(@0)))",
+    "and_v(v:pk(@2),or_i(pk(@0),and_v(v:older(10),and_v(v:sha256(#s0),and_v(v:sha256(#s1),sha256(#s2))))))",
+    "or_d(pk(@0),and_v(v:pk(@1),older(10)))",
+    "andor(pk(@0),sha256(#s0),pk(@1))",
+    "and_v(v:pk(@0),or_d(sha256(#s0),pk(@1)))",
+    "thresh(2,pk(@0),s:pk(@1),sln:older(10))",
+    "and_v(v:pk(@0),or_b(sha256(#s0),a:pk(@1)))",
+    "or_i(and_v(v:pk(@0),sha256(#s0)),and_v(v:pk(@1),after(9)))",
+    "and_v(v:pk(@0),andor(sha256(#s0),hash160(#k1),pk(@1)))",
+    "thresh(2,pk(@0),s:pk(@1),a:sha256(#s0))",
+    "and_v(or_c(pk(@0),v:sha256(#s0)),pk(@1))",
+    "or_d(multi(2,@0,@1),and_v(v:pk(@2),after(9)))",
+    "and_v(v:pk(@0),or_i(and_v(v:after(9),sha256(#s0)),pk(@1)))",
+    "c:or_i(and_v(v:sha256(#s0),pk_k(@0)),pk_k(@1))",
+    "t:or_c(pk(@0),and_v(v:pk(@1),or_c(pk(@2),v:hash160(#k0))))",
+    "and_v(v:pk(@0),or_i(hash256(#h1),or_i(ripemd160(#r2),pk(@1))))",
+    "andor(pk(@0),or_i(and_v(v:pkh(@1),hash160(#k0)),older(10)),pk(@2))",
+    "and_v(v:pk(@3),thresh(1,sha256(#s0),a:sha256(#s1),a:pk(@1)))",
+    "or_d(pk(@0),and_v(v:pkh(@1),or_i(sha256(#s0),older(4194314))))",
+    "and_b(pk(@0),a:or_i(sha256(#s1),pk(@2)))",
+    "and_v(v:pk(@0),or_d(pk(@1),and_v(v:sha256(#s0),after(500000001))))",
+    "thresh(2,pk(@0),a:or_i(sha256(#s0),pk(@1)),a:pk(@2))",
+];
+
+fn mk_tmpl<Ctx: ScriptContext>(w: &World, t: usize, tap: bool, sane: bool) -> Option<Miniscript<Key, Ctx>> {
+    use std::str::FromStr;
+    let mut s = TEMPLATES[t % TEMPLATES.len()].to_string();
+    if tap {
+        s = s.replace("multi(", "multi_a(");
+    }
+    for i in 0..6 {
+        s = s.replace(&format!("@{}", i), &w.key(i, tap).to_string());
+    }
+    for j in 0..N_PRE {
+        s = s.replace(&format!("#s{}", j), &w.sha256_img(j).to_string());
+        s = s.replace(&format!("#h{}", j), &w.hash256_img(j).to_string());
+        s = s.replace(&format!("#r{}", j), &w.ripemd160_img(j).to_string());
+        s = s.replace(&format!("#k{}", j), &w.hash160_img(j).to_string());
+    }
+    let m = Miniscript::<Key, Ctx>::from_str_insane(&s).ok()?;
+    if sane && m.validate(&Ctx::SANE).is_err() {
+        return None;
+    }
+    Some(m)
+}
+
+thread_local! {
+    /// template selected for the case being built (None: random generation)
+    static TMPL: std::cell::Cell<Option<usize>> = std::cell::Cell::new(None);
+}
+
+pub fn make_case_t(w: &World, seed: u64, kind_sel: u64, depth: u32, sane: bool, tmpl: Option<usize>) -> Option<Case> {
+    TMPL.with(|t| t.set(tmpl));
+    let r = make_case(w, seed, kind_sel, depth, sane);
+    TMPL.with(|t| t.set(None));
+    r
 }
 
 pub fn make_case(w: &World, seed: u64, kind_sel: u64, depth: u32, sane: bool) -> Option<Case> {
@@ -325,7 +392,13 @@ pub fn run(args: &[String]) {
         let cseed = seed.wrapping_mul(1_000_003).wrapping_add(c);
         let depth = 1 + (c % 4) as u32;
         let sane = c % 3 != 2;
-        let case = match catch_unwind(AssertUnwindSafe(|| make_case(&w, cseed, c, depth, sane))) {
+        // every fourth case is a directed template (sane), cycling through templates and output types
+        let tmpl = if c % 4 == 3 { Some((c / 4) as usize % TEMPLATES.len()) } else { None };
+        let (c_kind, sane) = match tmpl {
+            Some(_) => ([0u64, 1, 2, 4, 0][((c / 4) as usize / TEMPLATES.len()) % 5], true),
+            None => (c, sane),
+        };
+        let case = match catch_unwind(AssertUnwindSafe(|| make_case_t(&w, cseed, c_kind, depth, sane, tmpl))) {
             Ok(Some(x)) => x,
             Ok(None) => continue,
             Err(_) => {
